@@ -182,10 +182,12 @@ Queries(r) ==
     \cup {RDiv(RAdd(fq[j], fq[j + 1]), Two) : j \in 1..(n - 1)}
     \cup {RAdd(fq[j], RDiv(RSub(fq[j + 1], fq[j]), <<3, 1>>)) : j \in 1..(n - 1)}
     \cup {RDiv(fq[1], Two), RAdd(fq[n], ROne)}
-MeasurableKinds == {"real", "cplx"}
+MeasurableKinds == {"real", "cplx", "int"}
+(* integer-valued columns (navg, K, L) are interpolated like any other: between grid points the value is fractional *)
 Measure(r, name, q) ==
     LET d == Def(r, name) IN
-    IF d[1].k = "real" THEN Real(MeasureReal(Freqs(r), [j \in 1..Len(d) |-> d[j].v], q))
+    IF d[1].k = "int" THEN Real(MeasureReal(Freqs(r), [j \in 1..Len(d) |-> <<d[j].v, 1>>], q))
+    ELSE IF d[1].k = "real" THEN Real(MeasureReal(Freqs(r), [j \in 1..Len(d) |-> d[j].v], q))
     ELSE Cplx(<<MeasureReal(Freqs(r), [j \in 1..Len(d) |-> d[j].v[1]], q),
                 MeasureReal(Freqs(r), [j \in 1..Len(d) |-> d[j].v[2]], q)>>)
 (* s2 must be the same in all bins for a complex interpolation to be expressible: enforced by the scope *)
@@ -214,7 +216,18 @@ MkBin(f, rx, ry, rg, u, a, n, csd) ==
 
 (* the bin's frequency does not enter any definition: DC and Nyquist bins (compute_single_bin, custom schedulers) obey the same table *)
 GridFreqs(fs, rg) == IF rg \in {<<1, 2>>, <<1, 1>>} THEN {<<3, 2>>, <<0, 1>>, RDiv(fs, <<2, 1>>)} ELSE {<<3, 2>>}
+(* degenerate bins: a window without energy (np.hanning(2) = [0, 0], np.bartlett(2)), an all-zero record, one dead channel. *)
+(* The guards of the Def table (IsZero(S2), IsZero(S12), IsZero(xx), IsZero(yy)) are exercised only here.                  *)
+DegBins(n) ==
+    LET Z == <<0, 1>>  mk(xx, yy, S2, S12) == [f |-> <<3, 2>>, xx |-> xx, yy |-> yy, xy |-> <<Z, Z>>, s2 |-> <<1, 1>>, S2 |-> S2, S12 |-> S12,
+                                              navg |-> n, m2 |-> Z]
+    IN {mk(Z, Z, Z, Z), mk(Z, Z, <<3, 2>>, <<4, 1>>), mk(Z, <<1, 1>>, <<3, 2>>, <<4, 1>>), mk(<<1, 1>>, Z, <<3, 2>>, <<4, 1>>)}
+DegInit == \E csd \in BOOLEAN : \E n \in {1, 5} : \E b \in DegBins(n) :
+              /\ (~csd => b.yy = b.xx)
+              /\ res = [iscsd |-> csd, fs |-> <<2, 1>>, bins |-> <<IF csd THEN b ELSE [b EXCEPT !.xy = <<b.xx, <<0, 1>>>>]>>]
 GridInit ==
+  \/ DegInit
+  \/
     \E csd \in BOOLEAN : \E a \in Aux : \E n \in {1, 2, 5, 64} : \E rx \in RootsXX :
       IF csd THEN \E ry \in RootsYY : \E rg \in RootsG2 : \E u \in Units : \E f \in GridFreqs(a.fs, rg) :
              res = [iscsd |-> TRUE, fs |-> a.fs, bins |-> <<MkBin(f, rx, ry, rg, u, a, n, TRUE)>>]
@@ -280,7 +293,7 @@ PlotOp(kind) ==
 
 Next == IF Scope = "grid" THEN FALSE
         ELSE \/ \E nm \in HistNames : Get(nm)
-             \/ \E nm \in {"Gxy", "coh", "asd", "Hxy", "psd"} : MeasureOp(nm)
+             \/ \E nm \in {"Gxy", "coh", "asd", "Hxy", "psd", "navg"} : MeasureOp(nm)
              \/ ToFrame
              \/ \E kd \in {"copy", "deepcopy", "pickle"} : CopyOp(kd)
              \/ \E pk \in {"bode", "single"} : PlotOp(pk)
@@ -345,7 +358,7 @@ CacheClosed == cache = Closure(res.iscsd, cache)
 Case == [iscsd |-> res.iscsd, fs |-> res.fs, bins |-> res.bins,
          exp |-> [nm \in Names |-> Def(res, nm)],
          frame |-> FrameColumns(res),
-         measure |-> [nm \in {"Gxx", "Gxy", "coh", "asd", "Hxy", "psd"} |->
+         measure |-> [nm \in {"Gxx", "Gxy", "coh", "asd", "Hxy", "psd", "navg"} |->
                              IF Def(res, nm)[1].k \in MeasurableKinds
                              THEN {<<q, Measure(res, nm, q)>> : q \in Queries(res)} ELSE {}]]
 EmitGrid == (Scope = "grid" /\ EmitCases) => PrintT(ToJson(Case))
